@@ -86,8 +86,10 @@ def near_miss_words():
     return out
 
 
-def fam(name, lines, rule, exhaustive=False, categories=None, nontrivial=None):
+def fam(name, lines, rule, exhaustive=False, categories=None, nontrivial=None, profiles=None, pinned=False):
     return {
+        "profiles": profiles or ["release"],
+        "pinned": pinned,
         "name": name,
         "lines": lines,
         "rule": rule,
@@ -97,8 +99,9 @@ def fam(name, lines, rule, exhaustive=False, categories=None, nontrivial=None):
     }
 
 
-def fam_cmd(name, cases_args, rule, exhaustive=True, shard=True):
-    return {"name": name, "cases_cmd": cases_args, "rule": rule, "exhaustive": exhaustive, "categories": {}, "shard": shard}
+def fam_cmd(name, cases_args, rule, exhaustive=True, shard=True, profiles=None, pinned=False):
+    return {"name": name, "cases_cmd": cases_args, "rule": rule, "exhaustive": exhaustive, "categories": {}, "shard": shard,
+            "profiles": profiles or ["release"], "pinned": pinned}
 
 
 # ---- word-level families ------------------------------------------------------------------------
@@ -131,3 +134,167 @@ def c18_families(rng, tier):
                 "Deck::get on 0..63, powers-of-two boundaries, usize::MAX and seeded random usize of every "
                 "magnitude; non-trivial = distinct index",
                 categories={"in_range": sum(1 for i in idx if i < 52), "past_end": sum(1 for i in idx if i >= 52)})]
+
+
+# ---- hands ---------------------------------------------------------------------------------------
+def rand_hand(rng, k):
+    """k distinct deck cards in a random slot order"""
+    idx = []
+    while len(idx) < k:
+        i = rng.below(52)
+        if i not in idx:
+            idx.append(i)
+    return [DECK[i] for i in idx]
+
+
+def line(op, ws):
+    return op + " " + " ".join(str(w) for w in ws)
+
+
+def category_of(ws):
+    """rule-based category of five real cards (independent of the implementation); 8 = straight flush"""
+    rs = sorted((rank_of(w) for w in ws), reverse=True)
+    fl = len({suit_of(w) for w in ws}) == 1
+    cnt = sorted((rs.count(r) for r in set(rs)), reverse=True)
+    distinct = len(set(rs)) == 5
+    straight = distinct and (rs[0] - rs[4] == 4 or rs == [12, 3, 2, 1, 0])
+    if straight and fl:
+        return 8
+    if cnt[0] == 4:
+        return 7
+    if cnt == [3, 2]:
+        return 6
+    if fl:
+        return 5
+    if straight:
+        return 4
+    if cnt[0] == 3:
+        return 3
+    if cnt == [2, 2, 1]:
+        return 2
+    if cnt[0] == 2:
+        return 1
+    return 0
+
+
+CAT_NAMES = ["high_card", "pair", "two_pair", "trips", "straight", "flush", "full_house", "quads", "straight_flush"]
+
+
+def shuffled_fives(rng, n, op):
+    lines, cats = [], {}
+    for _ in range(n):
+        h = rand_hand(rng, 5)
+        c = CAT_NAMES[category_of(h)]
+        cats[c] = cats.get(c, 0) + 1
+        lines.append(line(op, h))
+    return lines, cats
+
+
+def structured_fives(rng, op):
+    """hands of every category in several slot orders, incl. repeated-rank hands spanning 5 ranks"""
+    out = []
+    for top in range(4, 13):
+        for s in range(4):
+            sf = [layout(top - i, s) for i in range(5)]
+            out.append(rng.shuffle(sf))
+            st = [layout(top - i, (s + i) % 4) for i in range(5)]
+            out.append(rng.shuffle(st))
+    for s in range(4):
+        out.append(rng.shuffle([layout(r, s) for r in (12, 3, 2, 1, 0)]))
+        out.append(rng.shuffle([layout(r, (s + r) % 4) for r in (12, 3, 2, 1, 0)]))
+    # pair / trips / quads inside a five-rank window (the span test trap), all windows
+    for lo in range(0, 9):
+        for dup in range(lo + 1, lo + 4):
+            out.append(rng.shuffle([layout(lo + 4, 3), layout(lo, 2), layout(dup, 0), layout(dup, 1), layout(lo + 1 if dup != lo + 1 else lo + 2, 0)]))
+        out.append(rng.shuffle([layout(lo + 4, 3), layout(lo + 4, 2), layout(lo + 4, 1), layout(lo + 4, 0), layout(lo, 1)]))
+        out.append(rng.shuffle([layout(lo + 4, 3), layout(lo + 4, 2), layout(lo + 4, 1), layout(lo, 0), layout(lo, 1)]))
+    return [line(op, h) for h in out]
+
+
+def c01_families(rng, tier):
+    n = 200000 if tier == "quick" else 2000000
+    sh, cats = shuffled_fives(rng, n, "rank 5")
+    return [
+        fam_cmd("fives_deck_order", ["hands", "--k", "5", "--op", "rank 5"],
+                "ALL 2,598,960 five-card subsets of the deck in deck order through all six five-card entry points "
+                "(hand_rank_value, hand_rank, hand_rank_value_and_hand, hand_rank_value_validated, hand_rank_validated, "
+                "evaluate::five_cards); every case distinct and non-trivial (a real hand)", pinned=True),
+        fam("fives_structured", structured_fives(rng, "rank 5"),
+            "straights, straight flushes, wheels and repeated-rank hands spanning five ranks, shuffled slots", pinned=True),
+        fam("fives_shuffled", sh, "seeded random five distinct cards in random slot order; non-trivial = distinct line",
+            categories=cats, pinned=True),
+    ]
+
+
+def c13_families(rng, tier):
+    n = 200000 if tier == "quick" else 2000000
+    sh, cats = shuffled_fives(rng, n, "pred5")
+    return [
+        fam_cmd("pred5_deck_order", ["hands", "--k", "5", "--op", "pred5"],
+                "ALL 2,598,960 five-card subsets in deck order: is_flush, is_straight, is_straight_flush, is_wheel, "
+                "or_rank_bits, and_bits, or_bits, multiply_primes, evaluate::is_flush, evaluate::or_rank_bits", pinned=True),
+        fam("pred5_structured", structured_fives(rng, "pred5"),
+            "straights, wheels and repeated-rank hands spanning five ranks, shuffled slots", pinned=True),
+        fam("pred5_shuffled", sh, "seeded random hands in random slot order", categories=cats, pinned=True),
+    ]
+
+
+def prime_products():
+    out = set()
+
+    def go(start, k, acc):
+        if k == 0:
+            out.add(acc)
+            return
+        for i in range(start, 13):
+            go(i, k - 1, acc * PRIMES[i])
+    go(0, 5, 1)
+    return sorted(out)
+
+
+def card_or_blank_multiset(rng, k, p_blank):
+    ws = []
+    for _ in range(k):
+        ws.append(0 if rng.below(100) < p_blank else DECK[rng.below(52)])
+    return ws
+
+
+def c05_families(rng, tier):
+    prods = prime_products()
+    keys = set()
+    for p in prods:
+        keys.update((p - 1, p, p + 1))
+    keys.update([0, 1, 2, 31, 32, 33, 47, 48, 49, (1 << 32) - 1, 1 << 32, (1 << 32) + 1, (1 << 63) - 1, 1 << 63,
+                 (1 << 64) - 1, (1 << 64) - 2, 104553157, 104553158, 104553156])
+    keys = sorted(keys)
+    rnd = [rng.next() >> rng.below(64) for _ in range(20000)]
+    fams = [
+        fam("find_in_products", ["fip %d" % k for k in keys + rnd],
+            "Five::find_in_products on every product of five rank primes and each +-1 (every key class a comparison search "
+            "can distinguish), the extremes of usize, seeded usize of every magnitude",
+            categories={"product_classes": len(keys), "random_usize": len(rnd)}, profiles=["release", "chk"], pinned=True),
+        fam_cmd("five_multisets", ["multisets", "--k", "5", "--op", "rankp 5"],
+                "ALL 4,187,106 five-slot multisets over {52 cards, blank}: every ranking entry point returns normally; "
+                "a hand with a blank gets value 0 / Invalid", profiles=["release", "chk"], pinned=True),
+    ]
+    n = 100000 if tier == "quick" else 1000000
+    for k in (5, 6, 7):
+        lines, cats = [], {"with_blank": 0, "with_repeat": 0, "all_distinct_cards": 0}
+        for i in range(n if k > 5 else n // 2):
+            ws = card_or_blank_multiset(rng, k, (0, 10, 40, 90)[i % 4])
+            if 0 in ws:
+                cats["with_blank"] += 1
+            elif len(set(ws)) < k:
+                cats["with_repeat"] += 1
+            else:
+                cats["all_distinct_cards"] += 1
+            lines.append(line("rankp %d" % k, ws))
+        lines.append(line("rankp %d" % k, [0] * k))
+        fams.append(fam("slots%d_card_or_blank" % k, lines,
+                        "seeded %d-slot arrays over {52 cards, blank} in random order with repetition (blank density 0/10/40/90%%), "
+                        "plus the all-blank default hand" % k, categories=cats, profiles=["release", "chk"], pinned=True))
+    if tier == "thorough":
+        fams.append(fam_cmd("six_multisets_slice", ["multisets", "--k", "6", "--op", "rankp 6", "--stride", "8", "--offset", str(rng.below(8))],
+                            "every 8th of the 6-slot multisets over {52 cards, blank}", exhaustive=False,
+                            profiles=["release", "chk"], pinned=True))
+    return fams
